@@ -364,7 +364,20 @@ type outProg struct {
 
 var enc = json.NewEncoder(os.Stdout)
 
+// runProg runs one program's driver; with command-line arguments only the
+// named programs run.
 func runProg(name string, drive func()) {
+	if len(os.Args) > 1 {
+		want := false
+		for _, a := range os.Args[1:] {
+			if a == name {
+				want = true
+			}
+		}
+		if !want {
+			return
+		}
+	}
 	trace.Sections = nil
 	out := outProg{Name: name}
 	func() {
